@@ -612,3 +612,33 @@ def run_case(h):
                             out.get("err") or ("ok%s%s%s" % ("+twice" if out["twice"] else "", "+dup" if out["dups"] else "",
                                                                "+legacy" if any(c >= 1000 * 65536 for c in out["ids"]) else "")))
     return dict(cin=coq_input(h, listdir_order), cout=cout, out=out, nontrivial=nontrivial, shape=shape)
+
+
+def canary(human, rec):
+    """corruptions of the observed output that violate C19_holds for this input, one or two per clause:
+    a Script lost / duplicated / its module or its revision id changed (Permutation clause), a spurious or a missing
+    'present more than once' report (count clause), a map entry lost / duplicated / replaced by a Script that was never
+    loaded (the three map clauses), success turned into an error and an error into success or into the other kind"""
+    out = rec.get("out") or {}
+
+    def ok(ids, dups, rmap):
+        return "Ok (mkObs %s %d %s %s)" % (cf.nlist(ids), out.get("twice", 0), cf.nlist(dups), cf.nlist(rmap))
+    if "err" in out:
+        if out["err"] not in ("ELoad", "EValue"):
+            return []
+        return ["Ok (mkObs [] 0 [] [])", "Err %s" % ("EValue" if out["err"] == "ELoad" else "ELoad")]
+    ids, dups, rmap = list(out["ids"]), list(out["dups"]), list(out["map"])
+    res = ["Err ELoad", ok(ids, dups + [ids[0] // 65536 if ids else 1], rmap)]
+    if ids:
+        fresh = max(ids) + 1
+        res.append(ok(ids[1:], dups, rmap))                                  # a Script lost
+        res.append(ok(ids + [ids[-1]], dups, rmap))                          # a Script loaded twice
+        res.append(ok(ids[:-1] + [fresh], dups, rmap))                       # another module under that revision id
+        res.append(ok([ids[0] + 65536] + ids[1:], dups, rmap))               # its revision id changed
+    if dups:
+        res.append(ok(ids, dups[1:], rmap))                                  # a duplicate id not reported
+    if rmap:
+        res.append(ok(ids, dups, rmap[1:]))                                  # a revision missing from the map
+        res.append(ok(ids, dups, rmap + [rmap[0]]))                          # two Scripts for one id in the map
+        res.append(ok(ids, dups, rmap[:-1] + [max(ids) + 1]))                # a Script in the map that was never loaded
+    return [t for t in res if t != rec["cout"]]
